@@ -463,6 +463,11 @@ class Module(ABC):
         Returns:
             View for subset of selected nodes and/or edges."""
 
+        # A boolean mask selects by position among the nodes (edges) in view; the
+        # positions of its `True` entries are not themselves indices.
+        nodes = self._mask_to_index(nodes, self._nodes_in_view)
+        edges = self._mask_to_index(edges, self._edges_in_view)
+
         nodes = self._reformat_index(nodes) if nodes is not None else None
         nodes = self._nodes_in_view if is_str_all(nodes) else nodes
         nodes = np.sort(nodes) if sorted else nodes
@@ -476,6 +481,17 @@ class Module(ABC):
         view = View(self, nodes, edges)
         view._set_controlled_by_param("filter")
         return view
+
+    @staticmethod
+    def _mask_to_index(idx: Any, index_in_view: np.ndarray) -> Any:
+        """Return the indices in view selected by a boolean mask (`idx` if no mask)."""
+        if isinstance(idx, (list, np.ndarray)) and np.asarray(idx).dtype == bool:
+            mask = np.asarray(idx).reshape(-1)
+            assert len(mask) == len(
+                index_in_view
+            ), "A boolean mask needs one entry per node (edge) in view."
+            return np.asarray(index_in_view)[mask]
+        return idx
 
     def set_scope(self, scope: str):
         """Toggle between "global" or "local" scope.
